@@ -619,11 +619,14 @@ class Engine(ExprMixin, ModelMixin, BuiltinMixin, MAMixin):
                 sj.note_k(j)
                 sj.note_k(j + 1)
                 lc.abstract(self, pre, sj, j, seq)
+                general = []
                 if self.feasible(sj):
                     sj.trail.append(label + ":iter j")
+                    base_len = len(sj.log)
                     for s2, out2 in body(sj, seq.get(j), j):
                         if out2[0] in ("normal", "continue"):
                             lc.check(self, pre, s2, j + 1, seq, label + ":preserve")
+                            general = [("forall",) + tuple(ev) for ev in s2.log[base_len:] if ev and ev[0] == "touch"]
                         elif out2[0] == "break":
                             raise Unsupported("break in symbolic loop")
                         else:
@@ -633,6 +636,7 @@ class Engine(ExprMixin, ModelMixin, BuiltinMixin, MAMixin):
                 se.note_k(m)
                 se.note_k(m - 1)
                 lc.abstract(self, pre, se, m, seq)
+                se.log.extend(general)
                 se.trail.append(label + ":exit")
                 yield se, ("normal", None)
 
